@@ -552,6 +552,13 @@ def gen_scenarios(seed: int, n: int, profile: str) -> list[dict[str, Any]]:
               'env': env, 'end': t + 80, 'tail_from': t + 60, 'profile': profile,
               'sync': 'all' if i % 5 == 3 else 'mixed' if i % 10 == 7 else '',     # synchronous (threaded) handlers
               'drs': i % 6 == 5 and profile != 'mixed'}        # every sixth history is about a ReplicaSet owned by a Deployment (marked progress keys)
+        if profile == 'consistency' and r2.random() < 0.3:
+            # an operator that has nothing to call on creation (update handlers only): a change made while the creation's own write
+            # is in flight is still a change against what was stored as handled
+            for h in hs:
+                if 'delete' not in hs[h]['reasons'] and 'resume' not in hs[h]['reasons']:
+                    hs[h]['reasons'] = ['update']
+            sc['updonly'] = True
         if profile in ('converge', 'progress', 'errors', 'finalizer', 'consistency', 'resume') and r2.random() < 0.35:
             # handlers return results (status.<handler id>), on a kind with or without the status subresource
             sc['res'] = {'ssub': r2.random() < 0.6}
